@@ -41,6 +41,8 @@ CHECKS = {
          'bounded exhaustive differential enumeration (embedded vs post-hoc; all small trees x 4 traversal classes)'),
  'C18': ('model_checking', '4 C18', 'Every text of <= 4 (thorough 5) lines over 6 indentations x 8 line bodies (brackets, blanks, comment-only lines), with/without final newline, under two spellings of the newline terminal and tab_len 8/4, streamed through the real Indenter: the INDENT/DEDENT/NAME/paren sequence or DedentError must equal a reference column-stack automaton which is cross-validated against CPython tokenize on every text tokenize accepts; the object\'s (indent stack, bracket depth) is read after every token. Every sequence of <= 3 streams (complete, failing, abandoned) through one Indenter object must reproduce the fresh-object output.',
          'exhaustive enumeration of line structures against a reference automaton (cross-validated with CPython tokenize) + explicit-state search over stream histories'),
+ 'C19': ('exploration', '4 C19', 'Every SHAPE-family grammar (with extra slice-/sum-like ?rule helpers) that passes our syntactic test for the supported class and LALR strict mode, plus a menu of multi-rule expression/list/keyword/sigil grammars; lalr and earley; every accepted input up to the bound, all through one Reconstructor per grammar in forward and reverse order: reconstruct(parse(w)) must re-parse to an equal tree.',
+         'bounded exhaustive round-trip enumeration over grammars of the supported class and all their accepted inputs'),
 }
 NOT_YET = {}
 def main():
